@@ -286,6 +286,21 @@ theorem mergeAux_ok (res : Results) : ∀ (files : List (List Row)) (fh : Row) (
         · rw [← h, ho, hrest, hf]
           by_cases hfh : fh.isEmpty <;> simp [hfh, List.flatMap_cons]
 
+theorem flatMap_congr' {α β} (l : List α) (f g : α → List β) (h : ∀ a ∈ l, f a = g a) :
+    l.flatMap f = l.flatMap g := by
+  induction l with
+  | nil => rfl
+  | cons a l ih =>
+    simp only [List.flatMap_cons]
+    rw [h a (by simp), ih (fun x hx => h x (by simp [hx]))]
+
+/-- decidable equality of results, for the closed examples in `Props/C15.lean` -/
+instance {ε α} [DecidableEq ε] [DecidableEq α] : DecidableEq (Except ε α)
+  | .ok a, .ok b => if h : a = b then isTrue (by rw [h]) else isFalse (fun e => h (by injection e))
+  | .error a, .error b => if h : a = b then isTrue (by rw [h]) else isFalse (fun e => h (by injection e))
+  | .ok _, .error _ => isFalse (fun e => by injection e)
+  | .error _, .ok _ => isFalse (fun e => by injection e)
+
 /-! ### Python `split` / `join` -/
 
 theorem splitOn_ne_nil (sep : Char) (s : List Char) : splitOn sep s ≠ [] := by
